@@ -17,7 +17,7 @@ AST (records of EgoCore.tla):
            globs: [{x, ty, e}], main: [stmt]}
   ty    = {ty: num|str|bool|slice|map|struct|fn, k | el | kt,vt | n | ps,rs}
   expr  = {e: lit|str|bool|var|conv|bin|un|call|mcall|idx|fld|len|slit|mlit|tlit|app|fn|rec, ...}
-  stmt  = {s: def|var|asg|opa|inc|def2|asg2|mget|pr|dpr|if|for3|forc|forr|sw|brk|cnt|ret|defer|panic|ex|del|none, ...}
+  stmt  = {s: def|var|asg|opa|inc|def2|defp|asg2|mget|pr|dpr|if|for3|forc|forr|sw|brk|cnt|ret|defer|panic|ex|del|none, ...}
 Every line a generated program prints starts with the sentinel "@@ " so that diagnostics output (trace, profile, debugger)
 can be told apart from program output.  The batch wrappers print "@@== n" before program n and "@@END" / "@@ERR text" /
 "@@PANIC value" after it.
@@ -197,6 +197,8 @@ class _R:
             return ["%svar %s %s" % (t, s["x"], _ty(s["ty"], self.pre))]
         if k == "def2":
             return ["%s%s := %s" % (t, ", ".join(s["xs"]), self.ex(s["e"], True))]
+        if k == "defp":
+            return ["%s%s := %s" % (t, ", ".join(s["xs"]), ", ".join(self.ex(e, True) for e in s["es"]))]
         if k == "asg2":
             return ["%s%s = %s" % (t, ", ".join(self.ex(l) for l in s["ls"]), ", ".join(self.ex(e, True) for e in s["es"]))]
         if k == "mget":
